@@ -97,7 +97,10 @@ class SnippetsModule(NewExtensionModule):
             #endif
             ''')
         header_path = Path(state.environment.get_build_dir(), state.subdir, header_name)
-        header_path.write_text(content, encoding='utf-8')
+        # Do not touch an unchanged header: it is a source of the targets that include it
+        header_tmp = header_path.with_name(header_path.name + '~')
+        header_tmp.write_text(content, encoding='utf-8')
+        mesonlib.replace_if_different(str(header_path), str(header_tmp))
         return mesonlib.File.from_built_file(state.subdir, header_name)
 
 def initialize(*args: T.Any, **kwargs: T.Any) -> SnippetsModule:
